@@ -306,6 +306,9 @@ def equality_pool(r):
         "pair (nan, 1)": (float("nan"), 1), "pair (1, 2.5)": (1, 2.5),
         "Scalar(0.0)": Scalar(0.0, u1), "Scalar(-0.0)": Scalar(-0.0, u1), "Scalar(-5 * 0)": Scalar(-5.0, u1) * 0, "Scalar(int 0)": Scalar(0, u1),
         "Scalar(empty, -0.0)": Scalar.CreateEmptyScalar(-0.0), "Scalar(empty, 0.0)": Scalar.CreateEmptyScalar(0.0), "Scalar(derived, -0.0)": (m * s) * -0.0, "Scalar(derived, 0.0)": (m * s) * 0.0,
+        # fractional values whose parts are beyond the float range are values like any other for == and !=
+        "FractionValue(huge int)": FractionValue(10**400), "FractionValue(huge int, same)": FractionValue(10**400), "FractionValue(huge numerator)": FractionValue(1, (10**400, 3)),
+        "FractionValue(huge negative)": FractionValue(-(10**400), (1, 2)),
         "None": None, "str": "x", "int": 1, "float": 0.5, "tuple": (1, 2), "list": [1.0, 2.0], "dict": {"a": 1}, "object": object(), "bool": True, "int0": 0, "float1.5": 1.5,
     }  # fmt: skip
     return objs
